@@ -19,7 +19,11 @@ Inductive op :=
 | OpRecombine (prop lenprop : Q) (sw : bool)
 | OpAddGaps (lenprop prop : Q)
 | OpMutate (rate : Q)
-| OpRogue (prop proplen : Q).
+| OpRogue (prop proplen : Q)
+(* reachability over many seeds: the outcomes observed for 96 seeds are listed in c_names1;
+   what = 0 RandSubAlign(len, consecutive) on rows with pairwise distinct columns, 1 ShuffleSequences on three rows,
+   2 Sample(1) *)
+| OpSupport (what len : Z).
 
 Record case := mk {
   c_alpha : Z; c_in : brows; c_tape : list Z; c_op : op;
@@ -62,6 +66,7 @@ Definition model_ok (c : case) : bool :=
       | Some ((rg, it, o), _) => negb (c_err c) && rows_eqb out o && names_eqb (c_names1 c) rg && names_eqb (c_names2 c) it
       | None => false
       end
+  | OpSupport _ _ => true
   end.
 
 (* ---- SPEC oracle: the invariant each operation promises, judged on input/output only ---------------- *)
@@ -76,6 +81,9 @@ Definition cols_of (rs : rows) : list (list byte) := map (column rs) (seq 0 (wid
 Definition same_names (a b : rows) : bool := list_eqb bytes_eqb (names a) (names b).
 Definition same_shape (a b : rows) : bool :=
   same_names a b && list_eqb Nat.eqb (map (fun r => length (snd r)) a) (map (fun r => length (snd r)) b).
+
+Fixpoint NoDup_bytes (l : list byte) : bool :=
+  match l with [] => true | x :: t => negb (existsb (beqb x) t) && NoDup_bytes t end.
 
 Definition floorq (q : Q) (n : Z) : Z := (Qnum q * n / Z.pos (Qden q))%Z.
 Definition in01 (q : Q) : bool := Qle_bool 0 q && Qle_bool q 1.
@@ -147,6 +155,27 @@ Definition spec_check (c : case) : option bool :=
             forallb (fun ro => let '(r, o) := ro in
                        forallb (fun ab => beqb (fst ab) (snd ab) || beqb (snd ab) x2d) (combine (snd r) (snd o)))
                     (combine rs out))
+  | OpSupport what len =>
+      let obs := map unbs (c_names1 c) in
+      let seen x := existsb (bytes_eqb x) obs in
+      let bar := x7c in
+      if Z.eqb what 0 then
+        match rs with
+        | r0 :: _ =>
+            if NoDup_bytes (snd r0) && (0 <? len)%Z && (len <=? Z.of_nat L)%Z then
+              Some (forallb (fun k => seen (firstn (Z.to_nat len) (skipn k (snd r0)))) (seq 0 (L - Z.to_nat len + 1)))
+            else None
+        | [] => None
+        end
+      else if Z.eqb what 1 then
+        match names rs with
+        | [a; b; d] =>
+            let j x y z := x ++ bar :: y ++ bar :: z in
+            Some (forallb seen [j a b d; j a d b; j b a d; j b d a; j d a b; j d b a])
+        | _ => None
+        end
+      else if Z.eqb what 2 then Some (forallb seen (names rs))
+      else None
   | OpRecombine p lp _ =>
       if Qle_bool 0 p && Qle_bool p (1 # 2) && in01 lp then
         Some (negb (c_err c) && c_replay c && same_shape out rs &&
